@@ -1,7 +1,7 @@
 (** C02 — panic-freedom lemmas for Model/Panics.v and for the composed request path. *)
 From Coq Require Import ZifyBool ZifyNat ZifyN.
 From KV Require Import Bytes RustInt RustStd RustStdProofs Panics.
-From KV Require PathSan PathSanProofs Range RangeProofs RangeConn RangeConnProofs Http1Read Hosts HostsProofs Negotiate Cors CacheControl.
+From KV Require PathSan PathSanProofs Range RangeProofs RangeConn RangeConnProofs Http1Read Hosts HostsProofs Negotiate Cors CacheControl Limiter LimiterProofs.
 Open Scope N_scope.
 
 (** * [binary_search_by] stays inside the slice *)
@@ -261,6 +261,104 @@ Proof.
   destruct (N.leb_spec (pos + read - end_) read) as [_|]; [|lia]. discriminate.
 Qed.
 
+(** The whole loop.  Invariant: the position before each read is at most [end] (at the start: [start <= end]
+    by [sanitize_range] resp. [0 <= file_len]; afterwards the loop goes on only while [pos < end]).  The
+    loop never sends more than the announced length and exactly it when the file delivers enough. *)
+Ltac min_lia :=
+  repeat match goal with
+         | |- context [N.min ?a ?b] =>
+             let H := fresh "Hmin" in destruct (N.min_spec a b) as [[? H]|[? H]]; rewrite H; clear H
+         end; lia.
+
+Lemma stream_loop_sent checked end_ reads : forall pos,
+  pos <= end_ -> pos + nsum (live_reads reads) <= u64_max -> Forall (fun r => r <= stream_buf) reads ->
+  exists sent, stream_loop checked pos end_ reads = Ok sent /\
+               nsum sent = N.min (end_ - pos) (nsum (live_reads reads)) /\ Forall (fun c => c <= stream_buf) sent.
+Proof.
+  induction reads as [|r rest IH]; intros pos Hpos Hfit Hbuf.
+  - exists []. cbn [stream_loop live_reads nsum]. split; [reflexivity|]. split; [min_lia|constructor].
+  - revert Hfit. cbn [stream_loop live_reads]. destruct (N.eqb_spec r 0) as [->|Hr]; intros Hfit.
+    + exists []. cbn [nsum]. split; [reflexivity|]. split; [min_lia|constructor].
+    + cbn [nsum] in Hfit. inversion Hbuf as [|? ? Hrb Hrest]; subst.
+      unfold stream_chunk, add_u64. destruct (N.leb_spec (pos + r) u64_max) as [_|]; [|lia]. cbn [obind].
+      destruct (N.ltb_spec end_ (pos + r)) as [Hover|Hin].
+      * unfold sub_u64. destruct (N.leb_spec end_ (pos + r)) as [_|]; [|lia]. cbn [obind].
+        destruct (N.leb_spec (pos + r - end_) r) as [_|]; [|lia]. cbn [obind fst snd].
+        destruct (N.ltb_spec stream_buf (r - (pos + r - end_))) as [|_]; [lia|].
+        destruct (N.leb_spec end_ (pos + r)) as [_|]; [|lia].
+        exists [r - (pos + r - end_)]. cbn [nsum]. split; [reflexivity|].
+        split; [min_lia|constructor; [lia|constructor]].
+      * cbn [obind fst snd]. destruct (N.ltb_spec stream_buf r) as [|_]; [lia|].
+        destruct (N.leb_spec end_ (pos + r)) as [Hend|Hmore].
+        -- exists [r]. cbn [nsum]. split; [reflexivity|]. split; [min_lia|constructor; [lia|constructor]].
+        -- destruct (IH (pos + r)) as (l & -> & Hl & Hlb); [lia|lia|assumption|].
+           cbn [obind]. exists (r :: l). cbn [nsum]. split; [reflexivity|].
+           split; [rewrite Hl; min_lia|constructor; assumption].
+Qed.
+
+Lemma stream_window_start_le_end checked hdr range file_len start end_ len :
+  Range.sanitize_range hdr = Ok range -> stream_window checked range file_len = Ok (start, end_, len) ->
+  start <= end_ /\ len = end_ - start /\ start <= 9223372036854775807.
+Proof.
+  intros Hs. unfold stream_window. destruct range as [[s e]|].
+  - apply sanitize_range_ordered in Hs as [Hle _]. unfold sub_u64.
+    destruct (N.leb_spec s e) as [_|]; [|lia]. cbn [obind].
+    destruct (N.ltb_spec 9223372036854775807 s) as [Hbig|Hsmall]; intros Hw; inversion Hw; subst.
+    repeat split; lia.
+  - unfold sub_u64. destruct (N.leb_spec 0 file_len) as [_|]; [|lia]. cbn [obind].
+    destruct (N.ltb_spec 9223372036854775807 0) as [Hbig|Hsmall]; intros Hw; inversion Hw; subst.
+    repeat split; lia.
+Qed.
+
+(** [stream_body] as a whole: for every Range header [sanitize_request] accepts, every file length and every
+    sequence of read results (each at most the buffer, file offsets below 2^63 as the kernel keeps them). *)
+Lemma stream_body_no_panic checked hdr range file_len reads start end_ len :
+  Range.sanitize_range hdr = Ok range -> stream_window checked range file_len = Ok (start, end_, len) ->
+  Forall (fun r => r <= stream_buf) reads -> start + nsum (live_reads reads) <= 9223372036854775807 ->
+  exists sent, stream_loop checked start end_ reads = Ok sent /\
+               nsum sent = N.min len (nsum (live_reads reads)) /\ nsum sent <= len.
+Proof.
+  intros Hs Hw Hbuf Hfit. destruct (stream_window_start_le_end _ _ _ _ _ _ _ Hs Hw) as (Hle & -> & _).
+  destruct (stream_loop_sent checked end_ reads start) as (sent & H1 & H2 & _);
+    [assumption|unfold u64_max; lia|assumption|].
+  exists sent. split; [assumption|]. split; [assumption|]. rewrite H2. min_lia.
+Qed.
+
+(** The reads of a regular file are within the buffer and add up to what is left of the file. *)
+Lemma file_reads_spec fuel : forall pos file_len,
+  Forall (fun r => r <= stream_buf) (file_reads fuel pos file_len) /\
+  nsum (live_reads (file_reads fuel pos file_len)) <= file_len - pos.
+Proof.
+  induction fuel as [|f IH]; intros pos file_len; cbn [file_reads].
+  - split; [constructor|cbn [live_reads nsum]; lia].
+  - destruct (N.leb_spec file_len pos) as [Hle|Hlt]; cbv iota zeta.
+    + split; [constructor; [unfold stream_buf; lia|constructor]|].
+      change (live_reads [0]) with (@nil N). cbn [nsum]. lia.
+    + destruct (IH (pos + N.min stream_buf (file_len - pos)) file_len) as [H1 H2].
+      destruct (N.min_spec stream_buf (file_len - pos)) as [[Hm Em]|[Hm Em]]; rewrite Em in *.
+      * split; [constructor; [lia|assumption]|]. cbn [live_reads].
+        destruct (N.eqb_spec stream_buf 0) as [E|_]; [unfold stream_buf in E; lia|]. cbn [nsum]. lia.
+      * split; [constructor; [lia|assumption]|]. cbn [live_reads].
+        destruct (N.eqb_spec (file_len - pos) 0) as [E|_]; [lia|]. cbn [nsum]. lia.
+Qed.
+
+Lemma stream_reply_no_panic checked hdr range file_len :
+  Range.sanitize_range hdr = Ok range -> file_len <= 9223372036854775807 ->
+  exists r, stream_reply checked range file_len = r /\ r <> Panic /\
+            forall len sent, r = Ok (len, sent) -> sent <= len.
+Proof.
+  intros Hs Hfl. eexists. split; [reflexivity|]. unfold stream_reply.
+  destruct (stream_window checked range file_len) as [[[start end_] len]|e|] eqn:Hw.
+  - cbn [obind]. set (reads := file_reads _ start file_len).
+    destruct (file_reads_spec (S (N.to_nat (file_len / stream_buf + 2))) start file_len) as [Hb Hsum].
+    fold reads in Hb, Hsum.
+    destruct (stream_window_start_le_end _ _ _ _ _ _ _ Hs Hw) as (_ & _ & Hst).
+    destruct (stream_body_no_panic checked hdr range file_len reads start end_ len Hs Hw Hb) as (sent & -> & _ & Hle); [lia|].
+    cbn [obind]. split; [discriminate|]. intros l s H. inversion H; subst. assumption.
+  - cbn [obind]. split; [discriminate|]. intros l s H. discriminate H.
+  - exfalso. eapply stream_window_no_panic; eassumption.
+Qed.
+
 (** * The HTTP/1 reader ([Model/Http1Read.v]): [parse::headers], [read::request], [Http1Body] *)
 Module Reader.
 Import Http1Read.
@@ -515,18 +613,49 @@ Proof.
   intros Hf Hc. destruct (RangeConnProofs.conn_step_spec checked caching pg cache q Hf Hc) as [-> _]. discriminate.
 Qed.
 
-Lemma request_path_no_panic grow parse_q checked mode https ops c dh max_len limit public deny caching pg cache stream sched :
-  Hosts.build ops = Ok c -> RangeConn.page_fits pg -> RangeConn.cache_ok pg cache ->
-  request_path grow parse_q checked mode https c dh max_len limit public deny caching pg cache stream sched <> Panic.
+(** The range stage on a page with another status than 200: the status only chooses 206 or not. *)
+Lemma serve_range_any_status_no_panic checked hdr status body :
+  N.of_nat (length body) <= u64_max -> Range.serve_range checked hdr status body <> Panic.
 Proof.
-  intros Hb Hf Hc. unfold request_path.
+  intros Hlen Hp. apply (RangeProofs.serve_range_no_panic checked hdr body Hlen).
+  revert Hp. unfold Range.serve_range. destruct (Range.sanitize_range hdr) as [range|e|]; try discriminate; [|reflexivity].
+  unfold Range.apply_range. destruct range as [[rs re]|]; [|discriminate].
+  destruct (_ <=? rs); [discriminate|].
+  destruct (sub_u64 checked _ 1) as [ei|e|]; cbn [obind]; try discriminate; [|reflexivity].
+  destruct (slice_chk _ _ body) as [sl|e|]; cbn [obind]; try discriminate. reflexivity.
+Qed.
+
+Lemma limiter_decision_ok checked lcfg t0 lh addr now :
+  Limiter.fits (S (length lh)) -> exists a, limiter_decision checked lcfg t0 lh addr now = Ok a.
+Proof.
+  intros Hf. unfold limiter_decision.
+  assert (Hlen : length (lh ++ [(addr, now)]) = S (length lh)) by (rewrite app_length; cbn [length]; lia).
+  pose proof (LimiterProofs.register_no_panic checked lcfg t0 (lh ++ [(addr, now)])) as HF.
+  rewrite Hlen in HF. specialize (HF Hf). rewrite Forall_forall in HF. apply HF. apply nth_In.
+  unfold Limiter.decisions. rewrite LimiterProofs.run_length, Hlen. lia.
+Qed.
+
+Lemma request_path_no_panic grow parse_q checked mode https ops c dh max_len limit lcfg t0 lh addr now public deny caching pg cache stream sched :
+  Hosts.build ops = Ok c -> Limiter.fits (S (length lh)) -> RangeConn.page_fits pg -> RangeConn.cache_ok pg cache ->
+  request_path grow parse_q checked mode https c dh max_len limit lcfg t0 lh addr now public deny caching pg cache stream sched <> Panic.
+Proof.
+  intros Hb Hl Hf Hc. unfold request_path.
   destruct (Http1Read.serve grow mode https dh max_len limit stream sched) as [sv|e|] eqn:Es; try discriminate.
   2:{ exfalso. eapply Reader.serve_no_panic; eassumption. }
   destruct (Hosts.choose_host Hosts.V1 c None _) as [[|h]|e|] eqn:Eh; try discriminate.
   2:{ exfalso. eapply choose_host_no_panic; eassumption. }
+  destruct (limiter_decision_ok checked lcfg t0 lh addr now Hl) as [a ->]. destruct a; try discriminate.
   destruct (PathSan.sanitize_path _) as [[]|e|] eqn:Ep; try discriminate.
   2:{ exfalso. eapply sanitize_path_no_panic; eassumption. }
-  destruct (negb _); [discriminate|].
+  assert (Hgate : forall st body, N.of_nat (length body) <= u64_max ->
+            obind (Range.serve_range checked (Http1Read.hm_get h_range (Http1Read.q_headers (Http1Read.sv_request sv))) st body)
+                  (fun r => Ok (PGate r)) <> Panic).
+  { intros st body Hbody. pose proof (serve_range_any_status_no_panic checked (Http1Read.hm_get h_range (Http1Read.q_headers (Http1Read.sv_request sv))) st body Hbody) as Hn.
+    destruct (Range.serve_range _ _ st body); cbn [obind]; [discriminate|discriminate|exfalso; apply Hn; reflexivity]. }
+  match goal with |- context [if ?b then obind (Range.serve_range _ _ 403 _) _ else _] => destruct b end;
+    [apply Hgate; vm_compute; discriminate|].
+  match goal with |- context [if ?b then obind (Range.serve_range _ _ 204 _) _ else _] => destruct b end;
+    [apply Hgate; vm_compute; discriminate|].
   rewrite pq_path_ok. cbn [obind].
   destruct (pq_query_ok (Http1Read.q_path (Http1Read.sv_request sv)) (Http1Read.q_query (Http1Read.sv_request sv))) as [r ->].
   cbn [obind].
